@@ -91,6 +91,30 @@ def generate(rng, tier):
                 pos = rng.randint(0, len(items))
                 flat_items.insert(pos, head + [t for b in body for t in b] + [b"}"])
                 items.insert(pos, head + split_items(rng, body, rng.choice([1, 1, 2]), files, prefix, counter) + [b"}"])
+            # an included file need not be brace-balanced: it may close the section it was included from and open
+            # another instance (of the same title, too) or another section, which the includer then closes
+            unbalanced = False
+            if secs and rng.random() < 0.3:
+                unbalanced = True
+                o = rng.choice(secs)
+                o2 = rng.choice([o, o, rng.choice(secs)])
+
+                def body_of(so):
+                    sp_ = [x for x in so.subs if x.name != "include"]
+                    b = [gen.gen_items(rng, sp_, 0, maxitems=1) for _ in range(rng.randint(0, 3))]
+                    return [t for x in b for t in x]
+
+                def head_of(so, t):
+                    return [so.name.encode("latin1")] + ([gen.title_token(rng, t)] if so.flags & gen.TITLE else []) + [b"{"]
+                t1 = rng.choice(gen.TITLES)
+                t2 = rng.choice([t1, t1, rng.choice(gen.TITLES)])
+                a_, b1, b2, c_ = body_of(o), body_of(o), body_of(o2), body_of(o2)
+                name = "%su%d.conf" % (prefix, counter[0])
+                counter[0] += 1
+                files[name] = b1 + [b"}"] + head_of(o2, t2) + b2
+                pos = rng.randint(0, len(items))
+                flat_items.insert(pos, head_of(o, t1) + a_ + b1 + [b"}"] + head_of(o2, t2) + b2 + c_ + [b"}"])
+                items.insert(pos, head_of(o, t1) + a_ + inc(name) + c_ + [b"}"])
             flat = [t for it in flat_items for t in it]
             depth = rng.choice([1, 1, 2, 3, 5, 9, 10])
             main = split_items(rng, items, depth, files, prefix, counter)
@@ -115,7 +139,8 @@ def generate(rng, tier):
                     lines.append("PB 1 " + hx(rng.choice([b'include("nosuch.conf")\n', b'include("adir")\n', b'include("self.conf")\n',
                                                           b'include("badinside.conf")\n', b'include("a", "b")\n', b'include()\n'])))
                 lines += ["PB 1 " + hx(b'include("good.conf")\n'), "D 1"]
-            cases.append(Case("i%d" % n, lines, {"kind": kind, "nfiles": len(files), "depth": depth, "tail_err": tail_err, "use_sp": use_sp}))
+            cases.append(Case("i%d" % n, lines, {"kind": kind, "nfiles": len(files), "depth": depth, "tail_err": tail_err, "use_sp": use_sp,
+                                                  "unbalanced": unbalanced}))
             n += 1
     return cases
 
@@ -177,6 +202,8 @@ def stats(case, model_lines):
     s = {"kind_" + case.meta["kind"]: 1, "files": case.meta["nfiles"]}
     if case.meta["use_sp"]:
         s["via_search_path"] = 1
+    if case.meta.get("unbalanced"):
+        s["file_closes_and_reopens_a_section"] = 1
     for l in model_lines:
         if l.startswith("G ") and l.split()[3].startswith("include"):
             s["diag_" + l.split()[3]] = s.get("diag_" + l.split()[3], 0) + 1
